@@ -1,5 +1,279 @@
-import Rivia.Model.Conc
+/-
+  C04 — Memfs operations are atomic and deadlock-free under concurrent use.
+  Property theorems ONLY (helper lemmas and auxiliary definitions live in Rivia/Lemmas/Conc.lean).
+
+  Model (Rivia/Model/Conc.lean): a program is a list of per-thread call lists; a call whose guard
+  table entry is one section (`SingleSection`) executes as ONE atomic step of the sequential model
+  `Memfs.step`; a schedule is the list of thread ids in the order in which they take the lock.
+
+  Real-time precedence (remark). A call occupies exactly one position of the schedule: its single
+  critical section, which lies inside the call's real-time interval (invocation … return). If call A
+  returns before call B is invoked, A's section precedes B's section, i.e. A's schedule position is
+  smaller. `C04_schedule_positions` shows that the position of a call in the induced sequential order
+  IS its schedule position (and that it is made by the thread scheduled there), so the induced order
+  respects real-time precedence; `C04_single_section_linearizable` (c) gives program order.
+
+  Out of the model's reach: that the Rust code takes exactly the tabulated guards (validated by the
+  `sched` harness through the lock hook, not proved), and that the sequential `step` never returns
+  `panic`/`hang` for the listed calls (a sequential property; a panic inside a section is what would
+  poison the lock).
+-/
+import Rivia.Lemmas.Conc
+
 namespace Rivia.Props
-open Rivia.Conc
-theorem C04_placeholder : sections .cwd = some [.R] := rfl
+open Rivia Rivia.Memfs Rivia.Conc Rivia.Lemmas Rivia.File
+
+/-! ## 1. linearizability of single-section calls -/
+
+/-- Full strength, any number of threads / calls, any schedule. If the schedule runs, then
+    (a) the final state is the sequential execution of the induced order,
+    (b) every thread's result list is exactly the results of its own calls in that sequential
+        execution, in order (`resultsOf i` filters the thread-tagged results),
+    (c) when the schedule is complete the induced order is an order-preserving merge of the threads'
+        programs: it contains exactly the program's calls and respects every thread's program order. -/
+theorem C04_single_section_linearizable (env : Env) (s : State) (todo : List (List Op))
+    (sched : List Nat) (c' : Cfg)
+    (h : runSchedule env ⟨s, todo, todo.map (fun _ => [])⟩ sched = some c') :
+    c'.st = (runSeq env s (induced todo sched)).1 ∧
+    (∀ i, i < todo.length →
+      c'.done[i]? = some (resultsOf i
+        ((inducedTagged todo sched).zip (runSeq env s (induced todo sched)).2))) ∧
+    ((∀ l ∈ c'.todo, l = []) → Interleaving todo (induced todo sched)) := by
+  refine ⟨runSchedule_state sched s todo _ c' h, ?_, ?_⟩
+  · intro i hi
+    rw [runSchedule_done sched s todo _ c' h i]
+    simp [List.getElem?_eq_getElem hi]
+  · intro hall
+    have := runSchedule_interleaving_ext sched s todo _ c' h [] (Interleaving.nil _ hall)
+    simpa using this
+
+/-- (b) for thread ids outside the program, and the shape of the result table: one list per thread -/
+theorem C04_result_table_shape (env : Env) (s : State) (todo : List (List Op))
+    (sched : List Nat) (c' : Cfg)
+    (h : runSchedule env ⟨s, todo, todo.map (fun _ => [])⟩ sched = some c') :
+    c'.done.length = todo.length ∧ c'.todo.length = todo.length := by
+  have := runSchedule_todo_length sched _ c' h
+  exact ⟨by simpa using this.2, by simpa using this.1⟩
+
+/-- (c) for incomplete schedules: the induced order followed by ANY order-preserving merge of the
+    calls still to make is an order-preserving merge of the whole program — the induced order is a
+    prefix of a legal sequential order; and per thread, the calls it has made (in induced order)
+    followed by the calls it still has to make are its program. -/
+theorem C04_prefix_linearizable (env : Env) (s : State) (todo : List (List Op))
+    (done : List (List (Outcome Val))) (sched : List Nat) (c' : Cfg)
+    (h : runSchedule env ⟨s, todo, done⟩ sched = some c') :
+    (∀ l, Interleaving c'.todo l → Interleaving todo (induced todo sched ++ l)) ∧
+    (∀ i, todo[i]? = (c'.todo[i]?).map (fun r =>
+      ((inducedTagged todo sched).filterMap (fun x => if x.1 = i then some x.2 else none)) ++ r)) :=
+  ⟨runSchedule_interleaving_ext sched s todo done c' h, runSchedule_todo_split sched s todo done c' h⟩
+
+/-- Real-time precedence, formal part: the induced order has exactly one call per schedule position,
+    the call at position `n` is made by thread `sched[n]`, and forgetting the tags gives `induced`. -/
+theorem C04_schedule_positions (env : Env) (s : State) (todo : List (List Op))
+    (done : List (List (Outcome Val))) (sched : List Nat) (c' : Cfg)
+    (h : runSchedule env ⟨s, todo, done⟩ sched = some c') :
+    (induced todo sched).length = sched.length ∧
+    (inducedTagged todo sched).map Prod.fst = sched ∧
+    (inducedTagged todo sched).map Prod.snd = induced todo sched ∧
+    (runSeq env s (induced todo sched)).2.length = sched.length := by
+  refine ⟨runSchedule_induced_length sched s todo done c' h, runSchedule_tagged_fst sched s todo done c' h,
+    inducedTagged_map_snd _ _, ?_⟩
+  rw [runSeq_length, runSchedule_induced_length sched s todo done c' h]
+
+/-- Converse (the schedule model loses no behaviour): every order-preserving merge of the threads'
+    programs is the induced order of a schedule that runs to completion. -/
+theorem C04_every_order_reachable (env : Env) (s : State) (todo : List (List Op)) (l : List Op)
+    (h : Interleaving todo l) :
+    ∃ sched c', runSchedule env ⟨s, todo, todo.map (fun _ => [])⟩ sched = some c' ∧
+      induced todo sched = l ∧ ∀ x ∈ c'.todo, x = [] :=
+  interleaving_exists_schedule h s _
+
+/-- an order-preserving merge is a permutation of all the program's calls (each exactly once) -/
+theorem C04_induced_perm (env : Env) (s : State) (todo : List (List Op)) (sched : List Nat) (c' : Cfg)
+    (h : runSchedule env ⟨s, todo, todo.map (fun _ => [])⟩ sched = some c')
+    (hall : ∀ l ∈ c'.todo, l = []) :
+    (induced todo sched).Perm todo.flatten :=
+  interleaving_perm ((C04_single_section_linearizable env s todo sched c' h).2.2 hall)
+
+/-! ## 2. the section table -/
+
+/-- Every operation the property lists as single-step takes exactly one guard in the model
+    (table facts; `sections` is validated against the code by the scheduler harness). -/
+theorem C04_section_table :
+    (∀ p, SingleSection (.mkdirP p)) ∧ (∀ p m, SingleSection (.mkdirM p m)) ∧
+    (∀ p, SingleSection (.mkfile p)) ∧ (∀ p, SingleSection (.remove p)) ∧
+    (∀ p, SingleSection (.removeAll p)) ∧ (∀ a b, SingleSection (.moveP a b)) ∧
+    (∀ a b, SingleSection (.copy a b)) ∧ (∀ a b c, SingleSection (.copyB a b c)) ∧
+    (∀ l t, SingleSection (.symlink l t)) ∧ (∀ p, SingleSection (.setCwd p)) ∧
+    (∀ p d, SingleSection (.appendAll p d)) ∧ (∀ p d, SingleSection (.writeAll p d)) ∧
+    -- reads
+    (∀ p, SingleSection (.readAll p)) ∧ (∀ p, SingleSection (.read p)) ∧
+    (∀ p, SingleSection (.readLines p)) ∧ (∀ p, SingleSection (.readlink p)) ∧
+    (∀ p, SingleSection (.readlinkAbs p)) ∧
+    -- queries
+    SingleSection .cwd ∧ SingleSection .root ∧ (∀ p, SingleSection (.abs p)) ∧
+    (∀ p, SingleSection (.exists p)) ∧ (∀ p, SingleSection (.isFile p)) ∧
+    (∀ p, SingleSection (.isDir p)) ∧ (∀ p, SingleSection (.isSymlink p)) ∧
+    (∀ p, SingleSection (.isSymlinkDir p)) ∧ (∀ p, SingleSection (.isSymlinkFile p)) ∧
+    (∀ p, SingleSection (.isExec p)) ∧ (∀ p, SingleSection (.isReadonly p)) ∧
+    (∀ p, SingleSection (.mode p)) ∧ (∀ p, SingleSection (.uid p)) ∧ (∀ p, SingleSection (.gid p)) ∧
+    (∀ p, SingleSection (.owner p)) ∧ (∀ p, SingleSection (.entry p)) ∧
+    -- listing snapshots (`is_dir` check and snapshot under one read guard)
+    (∀ p, SingleSection (.paths p)) ∧ (∀ p, SingleSection (.dirs p)) ∧
+    (∀ p, SingleSection (.files p)) ∧ (∀ p, SingleSection (.allPaths p)) ∧
+    (∀ p, SingleSection (.allDirs p)) ∧ (∀ p, SingleSection (.allFiles p)) := by
+  refine ⟨?_, ?_, ?_, ?_, ?_, ?_, ?_, ?_, ?_, ?_, ?_, ?_, ?_, ?_, ?_, ?_, ?_, ?_, ?_, ?_, ?_, ?_, ?_,
+    ?_, ?_, ?_, ?_, ?_, ?_, ?_, ?_, ?_, ?_, ?_, ?_, ?_, ?_, ?_, ?_⟩ <;> intros <;>
+    first | exact ⟨.W, rfl⟩ | exact ⟨.R, rfl⟩
+
+/-- Guard kinds (restates the table, labelled as such): every mutator takes the write guard, every
+    read / query / listing takes the read guard. -/
+theorem C04_section_kinds (op : Op) (k : GKind) (h : sections op = some [k]) :
+    k = .W ↔ (∃ p, op = .mkfile p) ∨ (∃ p, op = .mkdirP p) ∨ (∃ p m, op = .mkdirM p m) ∨
+      (∃ p, op = .remove p) ∨ (∃ p, op = .removeAll p) ∨ (∃ a b, op = .moveP a b) ∨
+      (∃ l t, op = .symlink l t) ∨ (∃ p, op = .setCwd p) ∨ (∃ p d, op = .writeAll p d) ∨
+      (∃ p d, op = .appendAll p d) ∨ (∃ a b, op = .copy a b) ∨ (∃ a b c, op = .copyB a b c) := by
+  cases op <;> simp [sections] at h <;> subst h <;> simp
+
+/-- Scope of the table: an operation is single-section iff it is tabulated at all; the calls outside
+    the table (state-dependent guard sequences) are NOT covered by the theorems of this file. -/
+theorem C04_section_scope (op : Op) : SingleSection op ↔ sections op ≠ none := by
+  cases op <;> simp [SingleSection, sections]
+
+theorem C04_not_tabulated :
+    (∀ p m, ¬ SingleSection (.mkfileM p m)) ∧ (∀ p m, ¬ SingleSection (.chmod p m)) ∧
+    (∀ p c, ¬ SingleSection (.chmodB p c)) ∧ (∀ p u g, ¬ SingleSection (.chown p u g)) ∧
+    (∀ p c, ¬ SingleSection (.chownB p c)) ∧ (∀ p r, ¬ SingleSection (.entries p r)) ∧
+    (∀ p ls, ¬ SingleSection (.writeLines p ls)) ∧ (∀ p ls, ¬ SingleSection (.appendLines p ls)) ∧
+    (∀ p l, ¬ SingleSection (.appendLine p l)) ∧
+    (∀ i p, ¬ SingleSection (.hWrite i p)) ∧ (∀ i p, ¬ SingleSection (.hAppend i p)) ∧
+    (∀ i d, ¬ SingleSection (.hPut i d)) ∧ (∀ i, ¬ SingleSection (.hFlush i)) ∧
+    (∀ i, ¬ SingleSection (.hDrop i)) := by
+  refine ⟨?_, ?_, ?_, ?_, ?_, ?_, ?_, ?_, ?_, ?_, ?_, ?_, ?_, ?_⟩ <;> intros <;>
+    simp [SingleSection, sections]
+
+/-! ## 3. concurrent appends -/
+
+/-- `append_all` never changes the working directory (whatever it returns), so the key a path
+    resolves to is the same before and after. -/
+theorem C04_appendAll_keeps_cwd (env : Env) (s : State) (p q : Str) (d : Bytes) :
+    (step env s (.appendAll p d)).2.cwd = s.cwd ∧
+    keyOf env (step env s (.appendAll p d)).2 q = keyOf env s q :=
+  ⟨step_appendAll_cwd env s p d, keyOf_cwd (step_appendAll_cwd env s p d) q⟩
+
+/-- The sequential fact as literally requested: a successful `append_all p d` maps stored content
+    `some old` to `some (old ++ d)`. FALSE on states with orphan data (bytes without an entry):
+    `_add` creates the missing entry and resets the bytes to empty first. -/
+def C04_append_content_full : Prop :=
+  ∀ (env : Env) (s : State) (p : Str) (d : Bytes) (k : FsPath) (old : Bytes),
+    keyOf env s p = some k → contentOf s k = some old →
+    (step env s (.appendAll p d)).1.isOk = true →
+    contentOf (step env s (.appendAll p d)).2 k = some (old ++ d)
+
+set_option maxRecDepth 8000 in
+theorem C04_append_content_full_false : ¬ C04_append_content_full := by
+  intro h
+  have := h env0 orphan ['/', 'f'] [2] [['f']] [1] (by decide) (by decide) (by decide)
+  revert this
+  decide
+
+/-- Full strength, every state: a successful `append_all p d` leaves `appendBase s k ++ d` under the
+    key of `p`, where `appendBase` is the stored content if `k` has an entry and empty otherwise;
+    afterwards `k` has an entry. -/
+theorem C04_append_content (env : Env) (s : State) (p : Str) (d : Bytes) (k : FsPath)
+    (hk : keyOf env s p = some k) (hok : (step env s (.appendAll p d)).1.isOk = true) :
+    contentOf (step env s (.appendAll p d)).2 k = some (appendBase s k ++ d) ∧
+    (alLookup k (step env s (.appendAll p d)).2.entries).isSome = true :=
+  ⟨(step_appendAll_ok hk hok).2.2, (step_appendAll_ok hk hok).2.1⟩
+
+/-- Partial variant of the requested fact, on the decidable domain `NoOrphan s k`: content
+    `some old` (or `none`, read as empty) becomes `some (old ++ d)`. -/
+theorem C04_append_content_partial (env : Env) (s : State) (p : Str) (d : Bytes) (k : FsPath)
+    (hdom : NoOrphan s k)
+    (hk : keyOf env s p = some k) (hok : (step env s (.appendAll p d)).1.isOk = true) :
+    contentOf (step env s (.appendAll p d)).2 k = some ((contentOf s k).getD [] ++ d) := by
+  rw [← appendBase_of_noOrphan hdom]
+  exact (C04_append_content env s p d k hk hok).1
+
+/-- Concurrent appends to one file, any number of threads and calls, any complete schedule: if every
+    call is an `append_all` on the same path and every call returned `Ok`, the final content is the
+    base content followed by the chunks concatenated in the induced order, and that order is a
+    permutation of all the program's chunks — every appended chunk is present exactly once (none
+    lost, none duplicated, none torn). The key of the path is still `k` at the end. -/
+theorem C04_appends_present_exactly_once (env : Env) (s : State) (todo : List (List Op))
+    (sched : List Nat) (c' : Cfg) (p : Str) (k : FsPath)
+    (h : runSchedule env ⟨s, todo, todo.map (fun _ => [])⟩ sched = some c')
+    (hcomplete : ∀ l ∈ c'.todo, l = [])
+    (happ : ∀ l ∈ todo, ∀ op ∈ l, ∃ d, op = .appendAll p d)
+    (hok : ∀ l ∈ c'.done, ∀ o ∈ l, o.isOk = true)
+    (hk : keyOf env s p = some k)
+    (hne : todo.flatten ≠ []) :
+    contentOf c'.st k = some (appendBase s k ++ ((induced todo sched).map chunkOf).flatten) ∧
+    ((induced todo sched).map chunkOf).Perm (todo.flatten.map chunkOf) ∧
+    keyOf env c'.st p = some k := by
+  exact appends_content h hcomplete happ hok hk hne
+
+/-- the same with the initial content spelled out, on the decidable domain `NoOrphan s k` -/
+theorem C04_appends_present_exactly_once_partial (env : Env) (s : State) (todo : List (List Op))
+    (sched : List Nat) (c' : Cfg) (p : Str) (k : FsPath)
+    (hdom : NoOrphan s k)
+    (h : runSchedule env ⟨s, todo, todo.map (fun _ => [])⟩ sched = some c')
+    (hcomplete : ∀ l ∈ c'.todo, l = [])
+    (happ : ∀ l ∈ todo, ∀ op ∈ l, ∃ d, op = .appendAll p d)
+    (hok : ∀ l ∈ c'.done, ∀ o ∈ l, o.isOk = true)
+    (hk : keyOf env s p = some k)
+    (hne : todo.flatten ≠ []) :
+    contentOf c'.st k =
+      some ((contentOf s k).getD [] ++ ((induced todo sched).map chunkOf).flatten) := by
+  rw [← appendBase_of_noOrphan hdom]
+  exact (C04_appends_present_exactly_once env s todo sched c' p k h hcomplete happ hok hk hne).1
+
+/-! ## 4. no nested acquisition, progress, termination -/
+
+/-- Documentation lemma (structural, restates the shape of the table): a tabulated call takes exactly
+    one guard during its whole execution — `sections` is a flat list of length one — so no call
+    acquires a guard while holding one. -/
+theorem C04_no_nested_acquire (op : Op) (gs : List GKind) (h : sections op = some gs) :
+    gs.length = 1 := by
+  cases op <;> simp [sections] at h <;> subst h <;> rfl
+
+/-- Progress: a thread that still has a call can always take its step, whatever the state and
+    whatever the other threads have done (no call blocks inside its section on another thread). -/
+theorem C04_progress (env : Env) (c : Cfg) (i : Nat) (op : Op) (rest : List Op)
+    (h : c.todo[i]? = some (op :: rest)) : stepThread env c i ≠ none := by
+  rw [stepThread_of_todo h]; simp
+
+/-- Deadlock freedom of the model: there is no configuration in which some thread has calls left and
+    no thread can move. -/
+theorem C04_no_deadlock (env : Env) (c : Cfg) (h : ¬ ∀ l ∈ c.todo, l = []) :
+    ∃ i c', stepThread env c i = some c' := by
+  obtain ⟨i, op, rest, hi⟩ := exists_pending_of_ne c.todo h
+  exact ⟨i, _, stepThread_of_todo hi⟩
+
+/-- Every call returns: from any configuration (in particular the one reached by any schedule so far)
+    the program can be run to completion, and the completing schedule makes exactly the remaining
+    calls. -/
+theorem C04_all_calls_return (env : Env) (c : Cfg) :
+    ∃ sched c', runSchedule env c sched = some c' ∧ ∀ l ∈ c'.todo, l = [] :=
+  exists_complete_schedule env _ c rfl
+
+/-! ## non-vacuity / sanity (tests, labelled as such) -/
+
+-- the hypotheses of `C04_appends_present_exactly_once` are satisfiable: two threads, three appends,
+-- schedule `[0, 1, 0]` (thread 1's append lands between thread 0's two appends)
+set_option maxRecDepth 20000 in
+example : ∃ c', runSchedule env0 ⟨Memfs.init, appendProg, appendProg.map (fun _ => [])⟩ [0, 1, 0] = some c' ∧
+    (∀ l ∈ c'.todo, l = []) ∧ (∀ l ∈ c'.done, ∀ o ∈ l, o.isOk = true) ∧
+    (∀ l ∈ appendProg, ∀ op ∈ l, ∃ d, op = .appendAll ['/', 'f'] d) ∧
+    keyOf env0 Memfs.init ['/', 'f'] = some [['f']] ∧ appendProg.flatten ≠ [] ∧
+    NoOrphan Memfs.init [['f']] ∧
+    contentOf c'.st [['f']] = some [1, 3, 2] := by
+  refine ⟨_, rfl, ?_, ?_, ?_, ?_, ?_, ?_, ?_⟩ <;> first | decide | simp [appendProg]
+
+example : induced appendProg [0, 1, 0] =
+    [.appendAll ['/', 'f'] [1], .appendAll ['/', 'f'] [3], .appendAll ['/', 'f'] [2]] := by decide
+
+-- the domain predicate separates the witness of `C04_append_content_full_false` from regular states
+example : ¬ NoOrphan orphan [['f']] := by decide
+
 end Rivia.Props
